@@ -4,6 +4,7 @@
             | [1; states; nmodels; init; items; clock]                 evaluate spec_C17 on an observed trace
      states      : list of [id; timeout; given; on_timeout; enter; exit]
                    on_timeout : list of [id; act; raises], act = [] | [[who; event]], who = [] | [model]
+                   enter, exit : list of [id; [] | [event]]
      transitions : list of [event; src; dst option; condition outcome]
      history     : list of [0; model; event] | [1; dt]
    answer  := [1; [1; 1]]                          construction raised AttributeError
@@ -11,7 +12,7 @@
             | [1; [2; verdict]]                    answer to request 1
      step : [items; [] or [result]; state of every model; clock]
      item : [kind; ...] with kinds 0 TExited 1 TEntered 2 TFired 3 CExit 4 CEnter 5 CTimeout 6 COnExc
-            7 CEscape 8 CRes 9 TUser;  result : 0 False 1 True 2 MachineError 3 AttributeError *)
+            7 CEscape 8 CRes 9 TUser;  result : 0 False 1 True 2 MachineError 3 AttributeError 4 out of fuel *)
 From Coq Require Import List Arith Bool.
 From M Require Import Sx Timer TimerSpec.
 Import ListNotations.
@@ -25,10 +26,16 @@ Definition d_ocb (x : sx) : option ocb :=
   | _ => None
   end.
 
+Definition d_ecb (x : sx) : option ecb :=
+  match x with
+  | L [N i; a] => do a' <- d_option d_nat a; Some (mkEcb i a')
+  | _ => None
+  end.
+
 Definition d_tstate (x : sx) : option (tstate * (bool * tsdef)) :=
   match x with
   | L [N s; N t; g; ot; en; ex] =>
-      do g' <- d_bool g; do ot' <- d_list d_ocb ot; do en' <- d_list d_nat en; do ex' <- d_list d_nat ex;
+      do g' <- d_bool g; do ot' <- d_list d_ocb ot; do en' <- d_list d_ecb en; do ex' <- d_list d_ecb ex;
       Some (s, (g', mkTS t ot' en' ex'))
   | _ => None
   end.
@@ -47,10 +54,11 @@ Definition d_top (x : sx) : option top :=
   end.
 
 Definition e_tres (r : tres) : sx :=
-  match r with RFalse => N 0 | RTrue => N 1 | RMachine => N 2 | RAttribute => N 3 end.
+  match r with RFalse => N 0 | RTrue => N 1 | RMachine => N 2 | RAttribute => N 3 | ROut => N 4 end.
 Definition d_tres (x : sx) : option tres :=
   match x with
-  | N 0 => Some RFalse | N 1 => Some RTrue | N 2 => Some RMachine | N 3 => Some RAttribute | _ => None
+  | N 0 => Some RFalse | N 1 => Some RTrue | N 2 => Some RMachine | N 3 => Some RAttribute | N 4 => Some ROut
+  | _ => None
   end.
 
 Definition e_titem (i : titem) : sx :=
